@@ -206,6 +206,10 @@ def main(argv=None):
     for what, cnt in sorted(known_hits.items()):
         print('KNOWN-FINDING: property=%s %s  [%d instances in this run]' % (pid, what, cnt))
     replay_paths = []
+    if len(new) > 4:
+        print('all new violation signatures (replays are written for the first 4):')
+        for key in sorted(new)[:40]:
+            print('   %-44s %-34s x%d   e.g. %s' % (key[0], key[1][:34], len(new[key]), str(new[key][0][2]['detail'])[:160].replace('\n', ' ')))
     if new:
         os.makedirs(os.path.join(VERIF, 'replays'), exist_ok=True)
         for key in sorted(new)[:4]:
